@@ -7,6 +7,9 @@ import (
 
 var (
 	reWith            = regexp.MustCompile(`\bwith\s*(/\*.*?\*/\s*)*\(`)
+	reElse            = regexp.MustCompile(`\belse\b`)
+	reJump            = regexp.MustCompile(`\b(break|continue|return|throw)\b`)
+	reLexical         = regexp.MustCompile(`\b(let|const|class|function)\b`)
 	reReturnUndefined = regexp.MustCompile(`\breturn\s*\(?\s*(undefined|void 0)\b`)
 )
 
@@ -23,6 +26,12 @@ func matchKnown(c Case, res result, err error) string {
 		c2.Func = false
 		if _, err2 := check(c2); err2 == nil {
 			return "C01-with-outer-rename"
+		}
+	}
+	// C01-else-unscope-keepnames: names are kept (KeepVarNames or with), an if whose then-branch jumps, an else with lexical declarations
+	if (c.KeepVars || reWith.MatchString(c.Src)) && reElse.MatchString(c.Src) && reJump.MatchString(c.Src) && reLexical.MatchString(c.Src) {
+		if strings.Contains(err.Error(), "has already been declared") || strings.HasPrefix(err.Error(), "behaviour differs") && strings.Contains(err.Error(), "ReferenceError") {
+			return "C01-else-unscope-keepnames"
 		}
 	}
 	// C01-return-comma-undefined: a function ending in `return undefined`/`return void 0` after >= 2 expression statements
